@@ -71,7 +71,7 @@ def grid_of_dump(d: str):
             r, c, v, _, _ = cell.split(".")
             if (int(r), int(c)) != (ri, ci):
                 pos_ok = False
-            rv.append(None if v == "-" else int(v))
+            rv.append(None if v == "-" else (int(v) if v.lstrip("-").isdigit() else v))
         vals.append(rv)
     return int(nr), int(nc), vals, pos_ok
 
@@ -240,6 +240,11 @@ def run(ctx: Ctx) -> int:
               [("N", 257, 1), ("DR", 0, 1, 0), ("W", 0, 255, 0, 9), ("RO", 0)],
               [("N", 2, 2), ("W", 0, 511, 1, 4), ("W", 0, 256, 0, 3), ("RO", 0), ("DR", 0, 256, 0), ("RO", 0)]):
         rnd.append(h)
+    # text (every third token is written as text) in several added tables, each table reopened
+    rnd.append(gridlib.with_dumps([("N", 2, 2), ("N", 2, 2), ("N", 2, 2), ("W", 0, 0, 0, 3), ("W", 1, 0, 0, 6), ("W", 1, 1, 1, 9),
+                                   ("W", 2, 0, 0, 12), ("W", 2, 1, 0, 15), ("W", 2, 1, 1, 16)], 3) + [("RO", 0), ("RO", 1), ("RO", 2)])
+    rnd.append(gridlib.with_dumps([("N", 1, 1), ("N", 3, 1), ("N", 1, 3), ("N", 2, 2), ("AR", 1, 1, 0, 21), ("AC", 2, 1, None, 24),
+                                   ("W", 3, 0, 0, 27), ("W", 0, 0, 0, 30)], 4) + [("RO", 3), ("RO", 2), ("RO", 1), ("RO", 0)])
     ctx.dist("exhaustive_histories", len(ex_h))
     ctx.dist("random_histories", len(rnd))
     ctx.dist("ops_total", sum(len(h) for h in ex_h + rnd))
